@@ -40,6 +40,10 @@ func normalizeSubpath(given string) (string, error) {
 		return "", fmt.Errorf("must be slash-separated relative path without any .. or . segments")
 	}
 
+	if strings.Contains(given, "?") {
+		return "", fmt.Errorf("must not contain a question mark, which would begin the query string portion of a source address")
+	}
+
 	clean := path.Clean(given)
 
 	// Go's path wrangling uses "." to represent "root directory", but
@@ -126,6 +130,11 @@ func joinSubPath(subPath, rel string) (string, error) {
 	// package.
 	if !fs.ValidPath(new) {
 		return "", fmt.Errorf("relative path %s traverses up too many levels from source path %s", rel, subPath)
+	}
+	// A question mark cannot appear in the sub-path portion of a source
+	// address, because it would be taken as the start of the query string.
+	if strings.Contains(new, "?") {
+		return "", fmt.Errorf("relative path %s contains a question mark, which cannot be used in a sub-path", rel)
 	}
 	return new, nil
 }
